@@ -1,3 +1,5 @@
+import Varint.Bridge.Tagged
+import Varint.Lemmas.Fuel
 import Varint.Lemmas.Bounded
 /- C14 — length-taking decoders stay inside their declared input.
    Memory model: the declared input is the list `bs` (byte count = `bs.length`; for the Elias decoders
@@ -289,5 +291,81 @@ theorem elias_out_le_cap (bytes : List Nat) (srcBits cap : Nat) (vs : List Nat) 
 example : bitmapDec [0, 255, 255, 255, 255] = (.err, [24]) := by decide
 example : (dictDec [255] none).1 = .err := by decide
 example : runCount [3, 5, 249] = .ok 1 := by decide
+
+
+
+/-- the C's bounded reader itself (translation regenerated from src/varintTagged.c on every run): whenever
+    the declared size `n` does not exceed the bytes present, varintTaggedGet returns 0 and stores nothing
+    exactly when the varint is cut short of its announced length, and otherwise returns a width ≤ n -/
+theorem c_tagged_short_is_zero (b0 : Nat) (rest : List Nat) (n : Int) (h : n ≤ (b0 :: rest).length)
+    (hb : ∀ b ∈ b0 :: rest, b < 256) :
+    ((Varint.Gen.C.taggedGet (Varint.Bridge.Tagged.bufOf (b0 :: rest)) n = (0, none)) ↔
+      (n < 1 ∨ n < (getLen b0 : Int))) ∧
+    (∀ w v, Varint.Gen.C.taggedGet (Varint.Bridge.Tagged.bufOf (b0 :: rest)) n = (w, some v) → (w : Int) ≤ n ∧ 1 ≤ w) := by
+  have hnf := getN_no_fault (b0 :: rest) n h
+  have hbr := Varint.Bridge.Tagged.taggedGet_eq (b0 :: rest) n hb hnf
+  have hshort := getN_short_iff b0 rest n h (by have := hb b0 (by simp); omega)
+  constructor
+  · rw [hbr, ← hshort]
+    cases hg : getN (b0 :: rest) n with
+    | fault => exact absurd hg hnf
+    | short => simp
+    | ok v l =>
+      simp only []
+      constructor
+      · intro he; cases he
+      · intro he; cases he
+  · intro w v hw
+    rw [hbr] at hw
+    cases hg : getN (b0 :: rest) n with
+    | fault => exact absurd hg hnf
+    | short => rw [hg] at hw; cases hw
+    | ok v' l =>
+      rw [hg] at hw
+      simp only [Prod.mk.injEq, Option.some.injEq] at hw
+      obtain ⟨rfl, rfl⟩ := hw
+      have := Bounded.getN_ok_bounds (b0 :: rest) n v' l hg
+      exact ⟨this.2.1, this.1⟩
+
+/-! ## termination: the model's loops are bounded by explicit fuel; the fuel each top-level function passes is
+    ADEQUATE for arbitrary bytes — more fuel never changes the answer, so running out of fuel is not a way the
+    model can differ from the C's own loop exit. -/
+
+/-- run counter: fuel = number of input bytes + 1 (every counted run consumes ≥ 2 bytes) -/
+theorem rle_runcount_fuel_adequate (bs : List Nat) (f : Nat) (hf : bs.length < f) :
+    Bounded.runCountAux f bs bs.length = Bounded.runCount bs :=
+  Bounded.runCount_fuel_suffices bs f hf
+
+/-- a successful bounded tagged read reports a width between 1 and 9 that is within the declared size and
+    within the bytes really present -/
+theorem tagged_bounded_width (bs : List Nat) (n : Int) (v w : Nat) (h : Tagged.getN bs n = .ok v w) :
+    1 ≤ w ∧ (w : Int) ≤ n ∧ w ≤ 9 ∧ w ≤ bs.length :=
+  let ⟨a, b, c⟩ := Bounded.getN_ok_bounds bs n v w h
+  ⟨a, b, c, Bounded.getN_ok_le_length bs n v w h⟩
+
+/-- Elias gamma: the zero counter stops at 63, fuel 65 is never exhausted -/
+theorem elias_gamma_fuel_adequate (rd : Elias.Reader) (total f pos : Nat) (hf : 64 ≤ f) :
+    Elias.gammaDecAux rd total f 0 pos = Elias.gammaDec rd total pos :=
+  Elias.gammaDec_fuel_suffices rd total f pos hf
+
+/-- run-length decoders and random access, arbitrary bytes -/
+theorem rle_fuel_adequate (bs : List Nat) (cap total n1 i f : Nat) :
+    (cap < f → RLE.decAux f cap bs = RLE.dec bs cap) ∧
+    (bs.length < 2 * f → RLE.decHAux f 0 total cap (bs.drop n1) = RLE.decHAux (bs.length + total + 2) 0 total cap (bs.drop n1)) ∧
+    (i + 1 < f → RLE.getAtAux f 0 i bs = RLE.getAt bs i) :=
+  ⟨fun h => RLE.dec_fuel_suffices f cap bs h, fun h => RLE.decH_fuel_suffices bs total cap n1 f h,
+   fun h => RLE.getAt_fuel_suffices f i bs h⟩
+
+/-- BP128 decoders, arbitrary bytes (the 64-bit form's loop can meet blocks that announce 0 values: its fuel
+    counts bytes as well as values) -/
+theorem bp128_fuel_adequate (bs : List Nat) (cap cnt n1 f : Nat) :
+    (cap / 128 < f → BP128.dec32Aux f cap bs = BP128.dec32 bs cap) ∧
+    (Tagged.get bs = .ok cnt n1 → bs.length < f → BP128.dec64 bs cap = BP128.dec64Aux f (min cnt cap) (bs.drop n1)) :=
+  ⟨fun h => BP128.dec32_fuel_suffices f cap bs h, fun hg h => BP128.dec64_fuel_suffices bs cap cnt n1 hg f h⟩
+
+/-- scalar readers, dictionary and packed-array binary searches -/
+theorem search_fuel_adequate (d : List Nat) (x f : Nat) (hf : d.length < f) :
+    Dict.bsearch d.toArray x f 0 d.length = Dict.find d x :=
+  Dict.find_fuel_suffices d x f hf
 
 end Varint.Props.C14
